@@ -460,6 +460,20 @@ func init() {
 		return Iface{t: x.t, v: x.v}
 	}
 
+	// ---- encoding/json.Marshal: only for strings, through the Go-source model in the harness library
+	intrinsics["encoding/json.Marshal"] = func(it *Interp, fr *frame, args []Value) Value {
+		x := args[0].(Iface)
+		if x.t == nil || x.t.kind != KString {
+			it.abort("unmodelled", "encoding/json.Marshal of a non-string value")
+		}
+		fn := it.p.mainPkg.Func("vpStdJSONString")
+		if fn == nil {
+			it.abort("unmodelled", "harness model vpStdJSONString missing")
+		}
+		res := it.call(fr, FuncV{fn: fn}, []Value{x.v})
+		return Tuple{res, Iface{}}
+	}
+
 	// ---- fastjson header puns
 	intrinsics["github.com/valyala/fastjson.b2s"] = func(it *Interp, fr *frame, args []Value) Value {
 		s := args[0].(Slice)
